@@ -71,12 +71,14 @@ def linear_extension(roots, prio):
 
 
 def encode(roots, magic='generic', size=None, off_bytes=None, has_idx=False, has_cache_bits=False, has_crc=False,
-           with_hashes=(), order=None, cache_bits=(), ref_override=None, bogus_hashes=(), stored_from=None):
+           with_hashes=(), order=None, cache_bits=(), ref_override=None, bogus_hashes=(), stored_from=None, declared_cells=None):
     """roots: list of RCell. order: list of distinct cells (parents first) or None for the default.
     with_hashes / cache_bits: sets of positions in `order`.
     ref_override: {(cell position, ref number): index value} — deliberately corrupt reference indexes (negative tests).
     bogus_hashes: positions (subset of with_hashes) whose STORED hashes/depths are wrong (first bit flipped / depth + 5): a
-    reader may reject such a bag or ignore the stored values, but must never report them as the cell's hash."""
+    reader may reject such a bag or ignore the stored values, but must never report them as the cell's hash.
+    declared_cells: the `cells` count written into the header (negative tests: fewer than are stored; the index, when present,
+    gets that many entries) - references to positions >= that count are dangling by the format although the bytes are there."""
     if order is None:
         order = topo(roots)
     index_of = {c.repr_hash(): i for i, c in enumerate(order)}
@@ -106,7 +108,7 @@ def encode(roots, magic='generic', size=None, off_bytes=None, has_idx=False, has
     else:
         flags = (128 if has_idx else 0) | (64 if has_crc else 0) | (32 if has_cache_bits else 0) | size
         out = bytearray(MAGIC[magic]) + bytes([flags, off_bytes])
-    out += n.to_bytes(size, 'big') + len(roots).to_bytes(size, 'big') + (0).to_bytes(size, 'big')
+    out += (n if declared_cells is None else declared_cells).to_bytes(size, 'big') + len(roots).to_bytes(size, 'big') + (0).to_bytes(size, 'big')
     out += len(payload).to_bytes(off_bytes, 'big')
     if not lean:
         for r in root_idx:
@@ -115,6 +117,8 @@ def encode(roots, magic='generic', size=None, off_bytes=None, has_idx=False, has
         end = 0
         for i, b in enumerate(blobs):
             end += len(b)
+            if declared_cells is not None and i >= declared_cells:
+                break
             v = end * 2 + (1 if i in cache_bits else 0) if has_cache_bits else end
             out += v.to_bytes(off_bytes, 'big')
     out += payload
